@@ -257,7 +257,8 @@ def fileHeader (fv : Nat) (F : File) : Bytes :=
 
 /-- `read_file`'s header checks pass on the writer's header when the target mesh type accepts the file's
     topology type; the chunk loop starts from the initial state with the header's counts -/
-theorem decodeStream_header_gen (fv : Nat) (hw : WF F) (hacc : Accepts cfg F) (body : Bytes) :
+theorem decodeStream_header_gen (fv : Nat) (hw : WF F) (htet : cfg.kind = .tet → F.topo = topoTypeTetrahedral)
+    (hhex : cfg.kind = .hex → F.topo = topoTypeHexahedral) (body : Bytes) :
     decodeStream cfg ⟨(fileHeader fv F ++ body).length, fileHeader fv F ++ body⟩
       = loop cfg (initState F.topo F.pos.length F.edges.length F.faces.length F.cells.length) ⟨body.length, body⟩ := by
   have hlen : (fileHeader fv F).length = sizeFileHeader := encFileHeader_length ..
@@ -304,8 +305,8 @@ theorem decodeStream_header_gen (fv : Nat) (hw : WF F) (hacc : Accepts cfg F) (b
     simp [hres, hw.topo]
   have c0 := hc 0 (by omega); have c1 := hc 1 (by omega); have c2 := hc 2 (by omega); have c3 := hc 3 (by omega)
   simp only [Nat.mul_zero, Nat.add_zero, Nat.mul_one, List.getD_cons_zero, List.getD_cons_succ] at c0 c1 c2 c3
-  have ht : ¬(cfg.kind = MeshKind.tet ∧ F.topo ≠ topoTypeTetrahedral) := fun ⟨a, b⟩ => b (hacc.tet a)
-  have hh : ¬(cfg.kind = MeshKind.hex ∧ F.topo ≠ topoTypeHexahedral) := fun ⟨a, b⟩ => b (hacc.hex a)
+  have ht : ¬(cfg.kind = MeshKind.tet ∧ F.topo ≠ topoTypeTetrahedral) := fun ⟨a, b⟩ => b (htet a)
+  have hh : ¬(cfg.kind = MeshKind.hex ∧ F.topo ≠ topoTypeHexahedral) := fun ⟨a, b⟩ => b (hhex a)
   have hmax : ¬(F.pos.length > maxHandleIdx ∨ F.edges.length > maxHandleIdx ∨ F.faces.length > maxHandleIdx
       ∨ F.cells.length > maxHandleIdx) := by omega
   simp only [hmagic, h9, h10, h11, ne_eq, not_true_eq_false, if_false, hparsed, if_true, c0, c1, c2, c3, ht, hh, hmax,
@@ -314,7 +315,7 @@ theorem decodeStream_header_gen (fv : Nat) (hw : WF F) (hacc : Accepts cfg F) (b
 theorem decodeStream_header (hw : WF F) (hacc : Accepts cfg F) (body : Bytes) :
     decodeStream cfg ⟨(writerHeader F ++ body).length, writerHeader F ++ body⟩
       = loop cfg (initState F.topo F.pos.length F.edges.length F.faces.length F.cells.length) ⟨body.length, body⟩ :=
-  decodeStream_header_gen cfg F writerFileVersion hw hacc body
+  decodeStream_header_gen cfg F writerFileVersion hw hacc.tet hacc.hex body
 
 /-- **C06, writer round trip**: what the writer produces for a well-formed file whose faces and cells the target
     mesh type accepts reads back as that file -/
